@@ -327,7 +327,7 @@ def monitor_c12(line, exp, li):
 
 def run_c12(tier, seed):
     rep = Report("C12", tier, seed)
-    problems = proof_stage(rep, "Properties_C12", ["no_silent_wrap_uri", "no_silent_wrap_pair", "pair_service_unchanged", "uri_host_port_is_pair", "uri_bracket_port_is_pair", "text_round_trip_v4", "port_of_encode4", "port_of_encode6"])
+    problems = proof_stage(rep, "Properties_C12", ["no_silent_wrap_uri", "no_silent_wrap_pair", "pair_service_unchanged", "uri_host_port_is_pair", "uri_bracket_port_is_pair", "text_round_trip_v4", "text_round_trip_v6", "uri_scheme_host_is_pair", "port_of_encode4", "port_of_encode6"])
     rnd = random.Random(seed)
     n = {"quick": 1500, "thorough": 20000}.get(tier, 1500)
     items = []
